@@ -15,11 +15,17 @@ BASIC and CANONICAL decode alike) hold for the C code as far as this leg shows t
 A disagreement is a broken correspondence (the model is the subject of the theorems); when the C round trip
 itself fails on the input it is reported as a failing input of C01.
 
-Not modelled (counted as `not_modelled`, never compared): types containing REAL (finding F40), open types / ANY.
+Not modelled (counted as `not_modelled`, never compared): types containing REAL, open types / ANY.
 The regions of the known XER findings need no skipping here because the model reproduces them
-(F30 trailing newline not consumed, F59 white space next to <true/>, F76 SET / SEQUENCE treat an absent DEFAULT
-differently in BASIC-XER).  Finding F56 is repaired: CANONICAL-XER does not encode a component that holds its DEFAULT
-value, stored or absent (SEQUENCE and SET; the fixed module carries values with explicitly stored defaults).
+(F30 trailing newline not consumed, F76 SET / SEQUENCE treat an absent DEFAULT differently in BASIC-XER).
+Repaired findings (the model follows the repaired code, nothing is skipped, the former witnesses are part of the
+fixed module / the directed decoder inputs `DIRECTED`):
+  F56  CANONICAL-XER does not encode a component that holds its DEFAULT value, stored or absent;
+  F150 BMPString / UniversalString go through the escaping of the other character strings ('<' '&' '>' and the
+       control characters);
+  F152 `&#;` `&#x;` `&#0;` are a decoding error (it was an assert);
+  F59  white space between the tags of a BOOLEAN element and its `<true/>` / `<false/>` is accepted;
+  F153 a value tag called like the element (`<red><red/></red>`, `<true><true/></true>`, `<nul><nul/></nul>`) decodes.
 """
 import collections, re
 from . import build, genmod, bundle, sexp
@@ -94,8 +100,8 @@ def fixed_module(rng, quick=True):
                     "\x0b\x0c", "é€\U0001f600", "x" * 40, "".join(chr(c) for c in range(0, 64)), "<nul/>", "1 < 2"])
     add("XIa5", T("IA5String"), ["", "abc", "a&b", "\x00\x7f", "<x/>"])
     add("XPrt", T("PrintableString"), ["", "A b", "Az 09'()+,-./:=?"])
-    add("XBmp", T("BMPString"), ["", "a", "aé€", "\x01", "￿", "a b"])
-    add("XUni", T("UniversalString"), ["", "a", "a\U0010ffff", "é€\U0001f600"])
+    add("XBmp", T("BMPString"), ["", "a", "aé€", "\x01", "￿", "a b", "a<b", "<", "&amp;", "x>&<y", "\x00", "a\x00\x1f\t\n\r<nul/>", "]]>"])
+    add("XUni", T("UniversalString"), ["", "a", "a\U0010ffff", "é€\U0001f600", "a<b", "&", "&#60;&lt;", "\x00>\x07", "\U0001f600<\x1b"])
     add("XOid", T("OBJECT IDENTIFIER"), [[0, 0], [1, 39], [2, 40], [2, 999, 3], [1, 2, 840, 113549, 1], [2, 4294967215], [0, 1, 4294967295, 0]])
     add("XRoid", T("RELATIVE-OID"), [[0], [1, 2], [4294967295], [127, 128, 16383, 16384]])
     add("XGt", T("GeneralizedTime"), ["19700101000000Z", "20010203040506.123Z"])
@@ -138,11 +144,12 @@ def fixed_module(rng, quick=True):
     add("XSeqE2", _sq("SEQUENCE", [("a", I, "OPTIONAL"), ("b", B)], ext=2), [{"b": True}, {"a": 1, "b": False}])
     add("XNest", _sq("SEQUENCE", [("s", T("REF", name="XSeqO")), ("c", T("REF", name="XCh")), ("l", T("REF", name="XLBool")), ("k", T("REF", name="XLInt"), "OPTIONAL")]),
         [{"s": {"c": 1}, "c": ("q", None), "l": [True]}, {"s": {"a": 1, "c": 2}, "c": ("s", ""), "l": [], "k": [1, 2]}])
-    # --- identifiers that collide with value tags: C's own encodings are rejected by its decoder (proposed F153);
-    #     the model reproduces that (both sides must agree on the rejection)
+    # --- identifiers that equal a value tag of the type they carry (finding F153, repaired: they round-trip)
     add("XEnClash", _sq("SEQUENCE", [("red", E), ("x", E)]), [{"red": 0, "x": 0}, {"red": 1, "x": 2}])
     add("XBoClash", _sq("SEQUENCE", [("true", B), ("false", B)]), [{"true": True, "false": True}, {"true": False, "false": False}])
-    add("XCtClash", _sq("SEQUENCE", [("nul", U)]), [{"nul": "a"}, {"nul": "a\x00"}])
+    add("XCtClash", _sq("SEQUENCE", [("nul", U), ("soh", T("BMPString"))]), [{"nul": "a", "soh": "\x01"}, {"nul": "a\x00", "soh": "\x00\x01"}])
+    add("XChClash", _ch([("true", B), ("red", E), ("esc", T("IA5String"))]), [("true", True), ("true", False), ("red", 0), ("red", 2), ("esc", "\x1b[")])
+    add("XLClash", T("SEQUENCE OF", elem=_sq("SEQUENCE", [("false", B)])), [[{"false": False}, {"false": True}]])
     # --- SET: canonical tag order of the root, DEFAULT
     C = "ctx"
     add("XSet", _sq("SET", [("b", dict(I, tag=(C, 1, ""))), ("a", dict(B, tag=(C, 0, ""))), ("c", dict(U, tag=(C, 2, "")), "OPTIONAL")]),
@@ -187,9 +194,35 @@ def set_order_ambiguous(t, env, tagdefault):
         if n == 0 or min(keys[n:]) < min(keys[:n]): return True
     return False
 
-# C aborts on `assert(val > 0)` in OCTET_STRING__convert_entrefs for a numeric character reference without
-# digits or with value 0 (proposed finding F152, property C04)
-_F152 = re.compile(rb"&#x?0*;")
+# decoder inputs aimed at the repaired findings F152 / F59 / F153 (type of the fixed module, input); the model and
+# C must agree on each of them like on every generated variant
+DIRECTED = [
+    # F152: numeric character references without digits / of value 0 (it was `assert(val > 0)`), and their neighbours
+    ("XUtf", b"<XUtf>&#;</XUtf>"), ("XUtf", b"<XUtf>&#x;</XUtf>"), ("XUtf", b"<XUtf>&#0;</XUtf>"), ("XUtf", b"<XUtf>&#x00;</XUtf>"),
+    ("XUtf", b"<XUtf>a&#000;b</XUtf>"), ("XUtf", b"<XUtf>&#x41;&#x;</XUtf>"), ("XUtf", b"<XUtf>&#;"), ("XUtf", b"<XUtf>&#1;&#x1;&#01;</XUtf>"),
+    ("XUtf", b"<XUtf>&#x</XUtf>"), ("XUtf", b"<XUtf>&#</XUtf>"), ("XUtf", b"<XUtf>&#g;</XUtf>"), ("XUtf", b"<XUtf>&#x110000;&#1114111;</XUtf>"),
+    ("XIa5", b"<XIa5>&#0;</XIa5>"), ("XBmp", b"<XBmp>&#x;</XBmp>"), ("XUni", b"<XUni>a&#;</XUni>"), ("XGt", b"<XGt>&#0;</XGt>"),
+    ("XBmp", b"<XBmp>&#x3c;&lt;&#60;</XBmp>"), ("XSeq", b"<XSeq><a>1</a><c/><d/><e><red/></e><n/><u>&#x0;</u></XSeq>"),
+    # F59: white space / comments between the tags of a BOOLEAN element and its value
+    ("XBool", b"<XBool> <true/> </XBool>"), ("XBool", b"<XBool>\n\t<false/>\r\n</XBool>"), ("XBool", b"<XBool> <true/></XBool>"),
+    ("XBool", b"<XBool><true/> </XBool>"), ("XBool", b"<XBool> </XBool>"), ("XBool", b"<XBool></XBool>"), ("XBool", b"<XBool/>"),
+    ("XBool", b"<XBool> <!-- c --> <true/> <!-- c --> </XBool>"), ("XBool", b"<XBool> <true/> <true/> </XBool>"), ("XBool", b"<XBool> x<true/></XBool>"),
+    ("XBool", b"<XBool>\x0c<true/></XBool>"), ("XBool", b"<XBool> <true/> x</XBool>"), ("XBool", b"<XBool> <true></true> </XBool>"),
+    ("XEnum", b"<XEnum> <red/> </XEnum>"), ("XEnum", b"<XEnum> </XEnum>"), ("XNull", b"<XNull> </XNull>"),
+    ("XSeqE2", b"<XSeqE2><b> <true/> </b></XSeqE2>"), ("XLBool", b"<XLBool> <true/> <false/> </XLBool>"),
+    ("XCh", b"<XCh><r> <false/> </r></XCh>"),
+    # F153: a value tag called like the element
+    ("XEnClash", b"<XEnClash><red><red/></red><x><red/></x></XEnClash>"), ("XEnClash", b"<XEnClash><red> <red/> </red><x><red/></x></XEnClash>"),
+    ("XEnClash", b"<XEnClash><red/><x><red/></x></XEnClash>"), ("XEnClash", b"<XEnClash><red><red/><red/></red><x><red/></x></XEnClash>"),
+    ("XEnClash", b"<XEnClash><red><red></red></red><x><red/></x></XEnClash>"), ("XEnClash", b"<XEnClash><red><red/></red><x><x/></x></XEnClash>"),
+    ("XBoClash", b"<XBoClash><true><true/></true><false><false/></false></XBoClash>"), ("XBoClash", b"<XBoClash><true><false/></true><false><true/></false></XBoClash>"),
+    ("XBoClash", b"<XBoClash><true/><false/></XBoClash>"), ("XBoClash", b"<XBoClash><true> <true/> </true><false>\n<false/></false></XBoClash>"),
+    ("XCtClash", b"<XCtClash><nul><nul/>a<nul/></nul><soh><soh/><nul/></soh></XCtClash>"), ("XCtClash", b"<XCtClash><nul/><soh/></XCtClash>"),
+    ("XCtClash", b"<XCtClash><nul><nul></nul></nul><soh/></XCtClash>"), ("XInt", b"<XInt><XInt/></XInt>"), ("XInt", b"<XInt>5<XInt/></XInt>"),
+    ("XOct", b"<XOct>01<XOct/></XOct>"), ("XNull", b"<XNull><XNull/></XNull>"), ("XBits", b"<XBits><XBits/>1</XBits>"),
+    ("XChClash", b"<XChClash><true><true/></true></XChClash>"), ("XChClash", b"<XChClash><red><red/></red></XChClash>"),
+    ("XChClash", b"<XChClash><esc><esc/>[</esc></XChClash>"), ("XChClash", b"<XChClash><esc/></XChClash>"),
+]
 
 # ------------------------------------------------------------------------------------------------ variants of an encoding
 _TOK = re.compile(rb"<[^<>]*>|[^<]+|<")
@@ -245,7 +278,7 @@ def variants(enc, rng, n):
         elif kind == 3:
             j = rng.randrange(len(x)); y = x[:j] + (b"&#x%x;" % x[j] if rng.random() < 0.5 else b"&#%d;" % x[j]) + x[j + 1:]
         elif kind == 4:
-            j = rng.randrange(len(x) + 1); y = x[:j] + rng.choice([b"&amp;", b"&lt;", b"&gt;", b"&", b"&#", b"&#x;", b"&quot;", b"&lt", b"&#1114112;", b"&#x41", b"+", b"-", b":", b"0", b"A"]) + x[j:]
+            j = rng.randrange(len(x) + 1); y = x[:j] + rng.choice([b"&amp;", b"&lt;", b"&gt;", b"&", b"&#", b"&#x;", b"&#;", b"&#0;", b"&#x0;", b"&quot;", b"&lt", b"&#1114112;", b"&#x41", b"+", b"-", b":", b"0", b"A"]) + x[j:]
         else:
             j = rng.randrange(len(x) + 1); y = x[:j] + rng.choice(WS) + x[j:]
         emit("text", toks[:i] + [y] + toks[i + 1:])
@@ -373,8 +406,12 @@ def k_leg_xer(ctx, cases, nvar, max_text=6000):
                 enc = bytes.fromhex(cc[3:])
                 dl.append(f"@{n} decq xer {cc[3:]}"); dm.append(f"@{n} l2dec xer {cc[3:]}"); dmeta.append((n, t, "own-" + syn))
                 for lab, vb in variants(enc, ctx.rng, nvar):
-                    if _F152.search(vb): st["skipped_F152_charref_assert"] += 1; continue
                     dl.append(f"@{n} decq xer {vb.hex()}"); dm.append(f"@{n} l2dec xer {vb.hex()}"); dmeta.append((n, t, lab))
+        if m["name"] == "XF":
+            tenv = dict(m["types"])
+            for n, vb in DIRECTED:
+                if n in tenv:
+                    dl.append(f"@{n} decq xer {vb.hex()}"); dm.append(f"@{n} l2dec xer {vb.hex()}"); dmeta.append((n, tenv[n], "directed"))
         if dl:
             co, ncrash = ctx.run_c_bisect(exe, dl)
             rc, mo, err = ctx.run_lines(build.model_exe(), dm)
@@ -401,37 +438,9 @@ def k_leg_xer(ctx, cases, nvar, max_text=6000):
         b.cleanup()
     return st, dis, labels
 
-PROPOSED_FINDINGS = [
-    {"id": "F150", "property": "C01", "properties": ["C01", "C03"], "status": "known",
-     "what": "XER: BMPString__dump / UniversalString__dump write the characters as UTF-8 WITHOUT the escaping that "
-             "OCTET_STRING_encode_xer_utf8 applies: '<', '&' and '>' go out raw, so a BMPString / UniversalString value containing '<' "
-             "produces text its own decoder rejects (<T>a<b</T> => RC_FAIL) and a value containing the five characters '&amp;' "
-             "decodes as '&' (X.693 8.3 / X.680 11.15: these characters must be written as &lt; &amp; &gt;)",
-     "witness": {"module": "M DEFINITIONS AUTOMATIC TAGS ::= BEGIN T ::= BMPString END", "type": "T", "op": "rt xer (os 0061003c0062)",
-                 "expect": r"^ok 3c543e613c623c2f543e0a rc=fail"},
-     "matcher": "syntax in xer/cxer and a BMPString / UniversalString value containing '<' or '&' (the generator's alphabets avoid them)",
-     "lean_reference": "Asn1c.Props.C01Xer.ref_F150_witness"},
-    {"id": "F152", "property": "C04", "properties": ["C04"], "status": "known",
-     "what": "XER: OCTET_STRING__convert_entrefs asserts `val > 0` after OS__strtoent: a numeric character reference without digits or "
-             "with value zero (`&#;`, `&#x;`, `&#0;`, `&#x00;`) in the text of any UTF8String / IA5String / BMPString / time / ... element "
-             "aborts the process (assert) instead of answering RC_FAIL",
-     "witness": {"module": "M DEFINITIONS AUTOMATIC TAGS ::= BEGIN T ::= UTF8String END", "type": "T", "op": "decq xer 3c543e2623783b3c2f543e",
-                 "expect": r"^CRASH .*val > 0"},
-     "matcher": "syntax == xer, decoder input containing &#;  &#x;  or a numeric character reference of value 0; crash report names OCTET_STRING__convert_entrefs / `val > 0`",
-     "lean_reference": None},
-    {"id": "F153", "property": "C01", "properties": ["C01", "C03"], "status": "known",
-     "what": "XER: xer_decode_general compares every tag found in the body of a primitive element with the element's own name first, so "
-             "a value tag that equals the name is taken for the (empty) element itself and the decoder answers RC_FAIL: "
-             "S ::= SEQUENCE { red ENUMERATED { red, green } } encodes { red red } as <S><red><red/></red></S>, which does not decode; "
-             "the same for a BOOLEAN component called `true` / `false` and for a character string component called like a control "
-             "character tag (nul, soh, ...).  Identifiers of components and of enumeration items live in different name spaces (X.680), "
-             "such types are legal",
-     "witness": {"module": "M DEFINITIONS AUTOMATIC TAGS ::= BEGIN S ::= SEQUENCE { red ENUMERATED { red, green } } END", "type": "S",
-                 "op": "rt cxer (seq (red (enum 0)))", "expect": r"^ok 3c533e3c7265643e3c7265642f3e3c2f7265643e3c2f533e rc=fail"},
-     "matcher": "syntax in xer/cxer and a component / alternative / top-level type whose identifier equals the identifier of the ENUMERATED item "
-                "(BOOLEAN: true / false, string: control character name) it carries",
-     "lean_reference": "Asn1c.Props.C01Xer.ref_F153_witness"},
-]
+# findings proposed by this leg and not yet in KNOWN_FINDINGS.json (F150 / F152 / F153 are there and repaired: their
+# former witnesses are replayed by gfind.replay_fixed_witnesses and are part of the fixed module / DIRECTED)
+PROPOSED_FINDINGS = []
 
 def replay_proposed(ctx):
     known = {f["id"] for f in ctx.findings}
@@ -444,7 +453,7 @@ def replay_proposed(ctx):
             outs, _ = ctx.run_c_bisect(exe, [f"@{w['type']} {w['op']}"])
             still = bool(re.search(w["expect"], str(outs[0])))
             res[f["id"]] = still
-            if still and f["id"] in known: ctx.known(next(x for x in ctx.findings if x["id"] == f["id"]))
+            if still and f["id"] in known: ctx.match_finding(lambda x: x["id"] == f["id"])
             elif not still: ctx.log(f"note: proposed finding {f['id']} no longer reproduces on its witness ({str(outs[0])[:80]})")
         except Exception as e:
             ctx.log("proposed-finding witness could not be built:", str(e)[:200])
